@@ -67,12 +67,12 @@ for n in range(1, 5):
     K[-1]["omit_contracts"] = OM
 k("repeat_order", *TL, ["C12"], "contract", function="Repeat::{cmp,partial_cmp,as_ordinal}", clause="total order None<=Times(n)<=Infinite")
 K[-1]["omit_contracts"] = OM
-for n in range(4):
+for n in range(6):
     for h, cl in (("update_is_ordered_overlay", "update == components applied in order (later wins); unanimated untouched"),
                   ("start_with_reaches_every_component", "start_with reaches each component exactly once; timing untouched"),
                   ("aggregate_timing", "delay=min, duration=max, repeat=max, cycle=common-or-None"),
                   ("clone_is_equivalent", "clone gives identical results and metadata")):
-        k("merged%d::%s" % (n, h), *TL, ["C12"] + (["C09"] if h == "clone_is_equivalent" else []), "contract", function="MergedTimeline::*", clause=cl,
+        k("merged%d::%s" % (n, h), *TL, ["C12"] + (["C09"] if h == "clone_is_equivalent" else []) + (["C04", "C05"] if h == "start_with_reaches_every_component" and n <= 3 else []), "contract", function="MergedTimeline::*", clause=cl,
           bound="%d component timelines (loops over the Vec unwound, unwinding assertions on); components arbitrary (abstract TL)" % n)
         K[-1]["omit_contracts"] = OM
 k("merged_single_is_transparent", *TL, ["C12"], "contract", function="MergedTimeline::{of,from}, TimelineOrBuilder::build", clause="wrapping one timeline changes nothing")
@@ -135,7 +135,7 @@ def kd(id, props, kind="contract", clause=None, bound=None):
     k(id, "PLACEHOLDER", "mina", "tests/verif_derive.rs", props, kind, function="derive(Animate) expansion", clause=clause, bound=bound, tests=True, timeout=600)
     K[-1]["harness"] = id
     K[-1]["assumes"] = ["callees prepare_frame / SubTimeline::{value_at, override_start_value, from_keyframes} replaced by scripted recording stubs (their behaviour is proved by the other layers)"]
-FAM = "struct family: {x:f32} unattributed; {#[animate] a:f32, b:u8, #[animate] c:i16}; six pub fields f32/f64/u8/i16/i32/u32; remote proxy - bounded over programs"
+FAM = "struct family: {x:f32} unattributed; {x:f32, tag:u8, y:f32, z:f32} (same-typed fields); {#[animate] a:f32, b:u8, #[animate] c:i16}; six pub fields f32/f64/u8/i16/i32/u32; remote proxy - bounded over programs"
 kd("shape1::update_contract", ["C17", "C08", "C09", "C01"], clause="generated update = prepare_frame(time, boundary_times, timescale) then per animated field assign iff value_at(nt, idx, flag) is Some; prior field content irrelevant", bound=FAM)
 kd("shape1::start_with_contract", ["C17", "C09", "C10"], clause="start_with hands each field's value to its own sub-timeline; timescale and boundary times untouched", bound=FAM)
 kd("shape1::build_and_accessors_contract", ["C17", "C03"], clause="accessors return the configured delay/cycle/repeat; build wires each field to its own getter and Default; keyframe_from copies the animated fields", bound=FAM)
@@ -144,6 +144,8 @@ kd("shape3::start_with_contract", ["C17", "C09", "C10"], clause="every animated 
 kd("shape3::build_contract", ["C17"], clause="keyframe data has exactly the animated fields; per-field getter/default wiring", bound=FAM)
 kd("shape6::update_contract", ["C17", "C08", "C09"], clause="six fields of six numeric types, each assigned iff its own value_at is Some", bound=FAM)
 kd("shape6::start_with_contract", ["C17", "C09"], clause="six fields reach six sub-timelines", bound=FAM)
+kd("pair::update_contract", ["C17", "C08", "C09"], clause="four fields, three of the same type: each assigned from its OWN sub-timeline", bound=FAM)
+kd("pair::wiring_contract", ["C17", "C09", "C10"], clause="keyframe_from / setters / build getters / start_with keep same-typed fields apart", bound=FAM)
 kd("remote::update_contract", ["C17", "C08"], clause="remote proxy: Target is the remote type; its other fields untouched", bound=FAM)
 kd("remote::keyframe_from_contract", ["C17"], clause="keyframe_from reads the remote value", bound=FAM)
 kd("canary::canary_must_fail", ["C17", "C09"], kind="canary")
